@@ -1,5 +1,6 @@
 import OpusModel.DecSkel
 import OpusModel.SilkPlcGains
+import OpusModel.CeltIdx
 import Driver.Util
 /-
   Suite `decskel` (C01 / C09): replay of one decoder call on the control skeleton.
@@ -25,6 +26,9 @@ import Driver.Util
     decskel celtplc <loss_duration> <skip_plc> <start> <LM> → kind=pitch|noise ld=<loss_duration'> skip=<skip_plc'>
     decskel celtgood <loss_duration> <skip_plc> <LM>        → ld=<loss_duration'> skip=<skip_plc'>
     decskel celtreset                                        → ld=0 skip=1
+    decskel celtsize <CC>                → size=<bytes> mem=<off>,… lpc=<off> oldE=<off> logE=<off> logE2=<off> bg=<off> end=<off>
+    decskel pfcalls <N> <LM> <CC> <pOld> <pCur> <pNew> → pf=<c>:<xoff>,<T0>,<T1>,<n>,<ovl>;… mv=<c>:<src>,<dst>,<len>;… next=<old>,<cur>
+    decskel combext <T0> <T1> <n> <ovl> <g0z> <g1z> <gsame> <inplace> → rd=<lo>..<hi>|- wr=<lo>..<hi>|-
 -/
 namespace Driver.SuiteDecSkel
 open Opus Opus.Framing Opus.DecSkel Driver
@@ -232,6 +236,30 @@ def handle : List String → String
       let s' := Opus.SilkPlcGains.celtGood { ld, skip := skip ≠ 0 } lm
       s!"ld={s'.ld} skip={if s'.skip then 1 else 0}"
     | _, _, _ => "bad-op"
+  | ["celtsize", cc] =>
+    match parseInt cc with
+    | some cc =>
+      let mems := ",".intercalate ((List.range cc.toNat).map fun (c : Nat) => toString (Opus.CeltIdx.memOff (c : Int)))
+      s!"size={Opus.CeltIdx.getSize cc} mem={mems} lpc={Opus.CeltIdx.lpcOff cc} oldE={Opus.CeltIdx.oldBandEOff cc} logE={Opus.CeltIdx.oldLogEOff cc} logE2={Opus.CeltIdx.oldLogE2Off cc} bg={Opus.CeltIdx.backgroundOff cc} end={Opus.CeltIdx.stateEnd cc}"
+    | none => "bad-op"
+  | ["pfcalls", n, lm, cc, po, pc, pn] =>
+    match parseInt n, parseInt lm, parseNat cc, parseInt po, parseInt pc, parseInt pn with
+    | some n, some lm, some cc, some po, some pc, some pn =>
+      let calls := Opus.CeltIdx.pfCalls n lm po pc pn
+      let pf := ";".intercalate ((List.range cc).flatMap fun c => calls.map fun k => s!"{c}:{k.xoff},{k.T0},{k.T1},{k.n},{k.ovl}")
+      let src := Opus.CeltIdx.memMoveSrc n
+      let dst := Opus.CeltIdx.memMoveDst n
+      let mv := ";".intercalate ((List.range cc).map fun c => s!"{c}:{src.lo},{dst.lo},{src.hi - src.lo + 1}")
+      let nx := Opus.CeltIdx.pfNext lm po pc pn
+      s!"pf={pf} mv={mv} next={nx.1},{nx.2}"
+    | _, _, _, _, _, _ => "bad-op"
+  | ["combext", t0, t1, n, ovl, g0z, g1z, gs, ip] =>
+    match parseInt t0, parseInt t1, parseInt n, parseInt ovl, parseInt g0z, parseInt g1z, parseInt gs, parseInt ip with
+    | some t0, some t1, some n, some ovl, some g0z, some g1z, some gs, some ip =>
+      let a : Opus.CeltIdx.CombArgs := { T0 := t0, T1 := t1, n, ovl, g0z := g0z ≠ 0, g1z := g1z ≠ 0, gsame := gs ≠ 0, inPlace := ip ≠ 0 }
+      let es (e : Opus.CeltIdx.Ext) : String := if e.isEmpty then "-" else s!"{e.lo}..{e.hi}"
+      s!"rd={es (Opus.CeltIdx.combRead a)} wr={es (Opus.CeltIdx.combWrite a)}"
+    | _, _, _, _, _, _, _, _ => "bad-op"
   | ["celtreset"] =>
     let s' := Opus.SilkPlcGains.celtReset
     s!"ld={s'.ld} skip={if s'.skip then 1 else 0}"
